@@ -7,6 +7,7 @@ import (
 	"go/types"
 	"os"
 	"path/filepath"
+	"regexp"
 	"sort"
 	"strings"
 	"sync"
@@ -368,3 +369,25 @@ func BodyPanics(info *types.Info, body []ast.Stmt) bool {
 }
 
 func exprStr(e ast.Expr) string { return types.ExprString(e) }
+
+// ---- small text helpers (grammar.ebnf is read as text: it is the lexical specification) ----
+
+func readGrammar(c *Ctx) string {
+	b, err := os.ReadFile(filepath.Join(c.RepoDir, "grammar.ebnf"))
+	if err != nil {
+		fatalf("grammar.ebnf: %v", err)
+	}
+	return string(b)
+}
+
+func regexpFind(s, re string) string {
+	m := regexp.MustCompile(re).FindStringSubmatch(s)
+	if len(m) < 2 {
+		return ""
+	}
+	return m[1]
+}
+
+func regexpGroups(s, re string) []string {
+	return regexp.MustCompile(re).FindStringSubmatch(s)
+}
